@@ -181,6 +181,8 @@ func (p *Proxy) ConnectDest(ctx context.Context, newDestURL *url.URL) error {
 
 	err = destChanger.resendRelevantNotifications(ctx, newDest)
 	if err != nil {
+		// the replacement is not referenced anywhere yet: close it, or it stays open until it idles out
+		newDest.conn.Close()
 		return err
 	}
 
@@ -287,6 +289,8 @@ func (p *Proxy) setDest(ctx context.Context, newDestURL *url.URL, onSubmit func(
 
 	err := destChanger.resendRelevantNotifications(ctx, newDest)
 	if err != nil {
+		// the new destination (fresh, or taken out of the cache above) is referenced nowhere now
+		newDest.conn.Close()
 		return err
 	}
 
